@@ -1,4 +1,6 @@
 import DeapModel.Core.GpTree
+import DeapModel.Core.GpSemantic
+import DeapModel.Core.GpPset
 import Driver.Proto
 /-!
 Protocol handler for C11 (GP trees).
@@ -9,6 +11,8 @@ pset    six tokens: `<sub> <prims> <terms> <ret> <terms_count> <prims_count>`
         sub   = `a.b,a.b,…` all pairs with issubclass(a, b)
         pools = `τ=nodes;τ=nodes;…` (`τ=` empty list), `-` = empty dict
 tape    comma-separated draws `r<bits>` | `i<a>.<b>.<x>` | `g<a>.<b>.<x>` | `c<n>.<i>`
+semmap  `name=node;name=node;…` (`-` = none): the entries of `pset.mapping` under the names `lf`, `mul`, `add`, `sub`
+decls   `;`-separated declarations, fields separated by `|` (see `parseDecl`)
 -/
 namespace DriverC11
 open Proto GpTree
@@ -180,6 +184,71 @@ def dropLast (l : List String) : Option (List String × String) :=
   | [] => none
   | x :: r => some (r.reverse, x)
 
+
+/-! ### geometric semantic operators, declaration histories -/
+
+def parseSemMap (s : String) : Option (String → Option Prim) :=
+  if s = "-" then some (fun _ => none) else do
+  let l ← (s.splitOn ";").mapM (fun e =>
+    match e.splitOn "=" with
+    | [k, n] => do let p ← parseNode n; some (k, p)
+    | _ => none)
+  some (fun k => (l.find? (fun e => e.1 == k)).map (·.2))
+
+/-- the text under which a float constant created by the operators travels: `F<bits>` (Python's `repr` of a double
+is not modelled; the harness prints the value of such a node the same way) -/
+def reprBits (x : Float) : String := "F" ++ toString x.toBits.toNat
+
+def parseMs (s : String) : Option (Option Float) :=
+  if s = "none" then some none else (parseFloat s).map some
+
+def parseOptName (s : String) : Option (Option String) :=
+  if s = "~" then some none else some (some s)
+
+def parseTVal (s : String) : Option TVal :=
+  match (s.take 1).toString, (s.drop 1).toString with
+  | "i", r => r.toInt?.map TVal.int
+  | "b", "1" => some (.bool true)
+  | "b", "0" => some (.bool false)
+  | "f", r => r.toNat?.map (fun n => TVal.flt (Float.ofBits (UInt64.ofNat n)))
+  | "o", _ => some .other
+  | _, _ => none
+
+def parseKargs (s : String) : Option (List (String × String)) :=
+  if s = "-" then some [] else
+  (s.splitOn ",").mapM (fun e => match e.splitOn ">" with | [a, b] => some (a, b) | _ => none)
+
+/-- `P|name|obj|args|ret`, `T|name or ~|obj|tval|str|repr|ret`, `E|name|func|ret`, `A|name|ins|ret`,
+`R|old>new,old>new`, `p|name|obj|arity`, `t|name or ~|obj|tval|str|repr`, `e|name|func`, `rP|τ`, `rT|τ` -/
+def parseDecl (s : String) : Option Decl :=
+  match s.splitOn "|" with
+  | ["P", name, obj, args, ret] => do
+    let o ← parseNat obj; let a ← parseDots parseNat args; let r ← parseNat ret; some (.prim name o a r)
+  | ["T", name, obj, v, st, rp, ret] => do
+    let n ← parseOptName name; let o ← parseNat obj; let v ← parseTVal v; let r ← parseNat ret
+    some (.term n o v st rp r)
+  | ["E", name, f, ret] => do let f ← parseNat f; let r ← parseNat ret; some (.eph name f r)
+  | ["A", name, ins, ret] => do let a ← parseDots parseNat ins; let r ← parseNat ret; some (.adf name a r)
+  | ["R", kargs] => do let k ← parseKargs kargs; some (.rename k)
+  | ["p", name, obj, arity] => do let o ← parseNat obj; let a ← parseNat arity; some (.uprim name o a)
+  | ["t", name, obj, v, st, rp] => do
+    let n ← parseOptName name; let o ← parseNat obj; let v ← parseTVal v; some (.uterm n o v st rp)
+  | ["e", name, f] => do let f ← parseNat f; some (.ueph name f)
+  | ["rP", t] => do let t ← parseNat t; some (.touchP t)
+  | ["rT", t] => do let t ← parseNat t; some (.touchT t)
+  | _ => none
+
+def showPool (d : List (Nat × List Prim)) : String :=
+  if d.isEmpty then "-" else ";".intercalate (d.map (fun e => toString e.1 ++ "=" ++ ",".intercalate (e.2.map showNode)))
+
+/-- the whole state: pools (in insertion order of the keys), mapping, context names, arguments, counters, ratio -/
+def showState (st : PState) : String :=
+  showPool st.dicts.prims ++ " " ++ showPool st.dicts.terms ++ " " ++
+  (if st.mapping.isEmpty then "-" else ";".intercalate (st.mapping.map (fun e => e.1 ++ "=" ++ showNode e.2))) ++ " " ++
+  (if st.context.isEmpty then "-" else ",".intercalate (st.context.map (fun e => e.1 ++ "=" ++ toString e.2))) ++ " " ++
+  (if st.arguments.isEmpty then "-" else ",".intercalate st.arguments) ++ " " ++
+  toString st.termsCount ++ " " ++ toString st.primsCount ++ " " ++ showOpt showFloat st.terminalRatio
+
 def handle : List String → String
   | ["gen", s, p, t, r, tc, pc, mode, mn, mx, ty, tape] =>
     match (do let ps ← parsePset s p t r tc pc; let m ← parseMode mode; let mn ← parseNat mn
@@ -249,6 +318,30 @@ def handle : List String → String
       let ds := l.foldl (addPrim (mkSub sp)) ⟨[], []⟩
       ";".intercalate (ts.map (fun τ => toString τ ++ "=" ++ ",".intercalate ((dictGet ds.prims τ).map (·.name))
         ++ "/" ++ ",".intercalate ((dictGet ds.terms τ).map (·.name))))
+    | none => "bad-op"
+  | ["msem", m, ind, s, p, t, r, tc, pc, mode, mn, mx, ms, tape] =>
+    -- mutSemantic(ind, gen_func, pset, ms, min, max); the generator is called with the default type (`pset.ret`)
+    match (do let mp ← parseSemMap m; let ind ← parseNodes ind; let ps ← parsePset s p t r tc pc; let md ← parseMode mode
+              let mn ← parseNat mn; let mx ← parseNat mx; let ms ← parseMs ms; let tp ← parseTape tape
+              pure (mp, ind, ps, md, mn, mx, ms, tp)) with
+    | some (mp, ind, ps, md, mn, mx, ms, tp) =>
+      show1 (mutSemantic mp reprBits ind (fun tp => runGen md ps mn mx ps.ret tp) ms tp)
+    | none => "bad-op"
+  | ["cxsem", m, a, b, s, p, t, r, tc, pc, mode, mn, mx, tape] =>
+    match (do let mp ← parseSemMap m; let a ← parseNodes a; let b ← parseNodes b; let ps ← parsePset s p t r tc pc
+              let md ← parseMode mode; let mn ← parseNat mn; let mx ← parseNat mx; let tp ← parseTape tape
+              pure (mp, a, b, ps, md, mn, mx, tp)) with
+    | some (mp, a, b, ps, md, mn, mx, tp) =>
+      show2 (cxSemantic mp reprBits a b (fun tp => runGen md ps mn mx ps.ret tp) tp)
+    | none => "bad-op"
+  | ["decls", sub, untyped, ins, pre, ds] =>
+    -- a declaration history from the constructor on: `untyped` = 1 for `PrimitiveSet(name, arity)` (`ins` = arity)
+    match (do let sp ← parseSub sub; let u ← parseBool untyped
+              let st0 ← (if u then (parseNat ins).map (fun n => PState.initU (mkSub sp) n (if pre = "~" then "" else pre))
+                         else (if ins = "-" then some [] else parseDots parseNat ins).map (fun l => PState.init (mkSub sp) l (if pre = "~" then "" else pre)))
+              let dl ← (if ds = "-" then some [] else (ds.splitOn ";").mapM parseDecl)
+              pure (mkSub sp, st0, dl)) with
+    | some (sb, st0, dl) => showOpt showState (runDecls sb st0 dl)
     | none => "bad-op"
   | "slim" :: key :: maxv :: npos :: rest =>
     -- npos = how many of the operator's trees are passed positionally
